@@ -35,6 +35,16 @@ def gen(tier, rng):
         m, known = D.family_doc("introspection", rng, ext)
         body = D.render(D.obj(D.shuffled(m + D.unknown_members(rng, known), rng)), rng)
         out.append((c05.http_line("async" if i % 2 else "sync", "introspect", ext, 200, rng.choice([None, b"application/json"]), body), "valid-model-http"))
+    for i, (k, v1, v2) in enumerate([("active", False, True), ("active", True, False), ("active", None, True), ("active", "false", True), ("active", 0, True), ("active", True, True),
+                                     ("sub", "alice", "bob"), ("exp", 1, 1700000000), ("scope", "read", "admin"), ("client_id", "a", "b"), ("aud", "x", ["y"]), ("token_type", "bearer", "mac")]):
+        for order in (0, 1):
+            m = [("active", True), ("client_id", "c")]
+            m = [(kk, vv) for kk, vv in m if kk != k]
+            doc = [(k, v1)] + m + [(k, v2)] if order == 0 else m + [(k, v1), (k, v2)]
+            body = D.render(D.obj(doc), rng, plain=True)
+            for ct in (None, b"application/json"):
+                out.append((c05.http_line("async" if (i + order) % 2 else "sync", "introspect", False, 200, ct, body), "repeated-member-http"))
+            out.append((D.decode_line("introspection", False, body), "repeated-member"))
     out += c05.source_literal_http(["introspect"], rng)
     # integers that are new in the source (gen/srclit.py) as timestamps (seconds; and the same instant in milliseconds)
     from gen import srclit as SL
